@@ -6,7 +6,7 @@ import itertools
 import numpy as np
 
 import infretis.classes.repex as rx
-from symx import npfacade
+from symx import core, npfacade
 from symx.core import Q, perm, qconst
 
 PROPERTIES = ["C02"]
@@ -175,6 +175,7 @@ def _prob(ctx, sh):
         ctx.fail("C02:doubly-stochastic (repo assertion)", repr(e))
         return
     except Exception as e:
+        core.reraise_if_proxy_limitation(e)
         ctx.fail("C02:no-exception", repr(e))
         return
     ctx.check(P.shape == (n, n), "C02:shape")
@@ -221,6 +222,7 @@ def _agree(ctx, sh):
         Pq = st.quick_prob(A.copy())
         Pp = st.permanent_prob(A.copy())
     except Exception as e:
+        core.reraise_if_proxy_limitation(e)
         ctx.fail("C02:no-exception", repr(e))
         return
     rows = [[A[i, j] for j in range(n)] for i in range(n)]
